@@ -164,13 +164,21 @@ func (c15) Generate(seed uint64, tier string, index int) any {
 			if g.R.Intn(4) == 0 {
 				e.Uid, e.Gid = []int{65534, 1, 4242}[g.R.Intn(3)], []int{65534, 1, 4242}[g.R.Intn(3)]
 			}
-			if len(e.Path) > 200 {
-				e.Path = e.Path[:120] // avoid the recorded long-name finding, irrelevant here
+			// avoid the recorded long-name finding, irrelevant here: every
+			// component is cut to 200 bytes (the same cut for an entry and its
+			// children, so the tree shape is kept)
+			parts := strings.Split(string(e.Path), "/")
+			for j, c := range parts {
+				if len(c) > 200 {
+					parts[j] = c[:200]
+				}
 			}
+			e.Path = fstree.Name(strings.Join(parts, "/"))
 			if e.Type == "d" && !utf8Valid(string(e.Path)) {
 				e.Type, e.Perm = "fifo", 0o644 // non-UTF-8 directory names: recorded C01 finding
 			}
 		}
+		sc.Src.Dedupe()
 		if g.R.Intn(3) == 0 {
 			big := []int64{1<<31 - 1, 1 << 31, 1<<31 + 1, 1<<32 - 1, 1 << 32, 1<<32 + 1, 3 << 30, 1 << 40, 1<<31 + 12345}
 			for i := 0; i < 1+g.R.Intn(3); i++ {
